@@ -10,6 +10,11 @@ impl ByteCompiler<'_> {
 
         self.block_declaration_instantiation(switch);
 
+        let outer_switch_scope = self.switch_scope_without_const_cache;
+        if switch.cases().len() > 1 {
+            self.switch_scope_without_const_cache = Some(self.lexical_scope.unique_id());
+        }
+
         let start_address = self.next_opcode_location();
         self.push_switch_control_info(None, start_address, use_expr);
 
@@ -52,6 +57,7 @@ impl ByteCompiler<'_> {
             self.patch_jump(default_label);
         }
 
+        self.switch_scope_without_const_cache = outer_switch_scope;
         self.pop_switch_control_info();
         self.pop_declarative_scope(outer_scope);
     }
